@@ -735,7 +735,6 @@ void run03(const Plan& p) {
     scan_chain(*c);
     if (chain1 > chain0) probe("growth_steps_in_concurrent_phase", (uint64_t)(chain1 - chain0));
     if (chain1 > 0) probe("growth_steps_total", (uint64_t)chain1);
-    if (chain1 - chain0 >= 2) probe("two_growth_steps_in_one_concurrent_phase");
   }
 
   // final lookups by main (joined => ordered after everything)
